@@ -137,6 +137,8 @@ def _subst(term, mapping):
     k = term[0]
     if k == "param":
         return mapping.get(term[1], term)
+    if k == "upvar":
+        return mapping.get(("upvar", term[1]), term)
     if k == "field":
         return (k, _subst(term[1], mapping), term[2], term[3] if len(term) > 3 else None)
     if k == "variant":
@@ -446,6 +448,55 @@ def _edge_dominates(body, edge, target):
     return target not in body.reachable(0, removed_edges=[edge])
 
 
+def closure_result(f, ct, arg):
+    """The value a closure term `ct` = ('closure', def, captures) returns when called with `arg`: its return term with the
+    parameter spelt as `arg` and the captures as the captured values.  None unless the closure body is a single
+    expression of those (no branches that the term language would hide)."""
+    cb = f.body(ct[1])
+    if cb is None or cb.cycles_sccs() or any(blk["term"]["t"] == "switch" for blk in cb.blocks if not blk.get("cleanup")):
+        return None
+    rt = strip_deep(sym_of(cb).local(0))
+    if any(x[0] in ("var", "unknown", "yield", "mvar") for x in walk(rt)):
+        return None
+    m = {}
+    if cb.arg_count >= 2:
+        m[cb.local_name(2) or "_2"] = arg
+    for name, pl in cb.rec.get("upvars", []):
+        for pe in pl.get("p", []):
+            if pe and pe[0] == "f":
+                try:
+                    m[("upvar", name)] = ct[2][int(pe[1])]
+                except (TypeError, ValueError, IndexError):
+                    pass
+                break
+    return strip_deep(_subst(rt, m))
+
+
+def result_cases(f, v):
+    """A value computed by a `Result` combinator is a case distinction on the Result it is applied to:
+    `r.map_or_else(d, g)` is `match r { Ok(x) => g(x), Err(e) => d(e) }`, `r.map_or(c, g)` likewise with the constant c.
+    -> [(value term, r, "Ok" | "Err")], or None when `v` is not of that form."""
+    v = strip_deep(v)
+    if v[0] != "call" or not re.match(r"^(std|core)::result::Result::<", (v[3] or {}).get("fn") or ""):
+        return None
+    name = (v[3] or {}).get("name")
+    if name not in ("map_or_else", "map_or") or len(v[2]) != 3:
+        return None
+    r, d, g = (strip_deep(x) for x in v[2])
+    if g[0] != "closure":
+        return None
+    okv = closure_result(f, g, ("field", ("variant", r, "Ok"), "0", None))
+    if name == "map_or_else":
+        if d[0] != "closure":
+            return None
+        errv = closure_result(f, d, ("field", ("variant", r, "Err"), "0", None))
+    else:
+        errv = d
+    if okv is None or errv is None:
+        return None
+    return [(errv, r, "Err"), (okv, r, "Ok")]
+
+
 def check_verify_issued(ctx, f, rule_prefix=""):
     specs = [
         ("repository::resources::ipres::IpBlocks::verify_issued",
@@ -514,31 +565,37 @@ def check_verify_issued(ctx, f, rule_prefix=""):
                     ctx.ob("R-FLOW", "%s:bb-success-shape" % own, False,
                            "unrecognised success value in %s: %s" % (own, render(t)), where=b.where(bi, si))
                     continue
-                v = strip_deep(dict(t[3])["0"])
-                r = render(v)
+                v0 = strip_deep(dict(t[3])["0"])
                 n_ok += 1
-                rts = {render(x).split(".")[0] for x in roots(v) if x[0] in ("param", "var", "upvar")}
-                verdict = False
-                kind = "?"
-                if re.search(r"::empty\(\)$", r) and not rts:
-                    kind = "empty"
-                    verdict = True
-                elif rts == {"self"} and r == "self":
-                    kind = "issuer's own"
-                    inh = arm_of.get("Inherit")
-                    verdict = inh is not None and _edge_dominates(b, (choice_sw, inh), bi)
-                elif rts == {"res"} and re.match(r"^res\.0↓Blocks\.0$", r):
-                    kind = "claimed blocks"
-                    verdict = any(_edge_dominates(b, e, bi) for e in cover_edges)
-                elif re.search(r"(intersection|intersection_assign)\(", r) and rts == {"res", "self"}:
-                    kind = "intersection(claimed, issuer)"
-                    verdict = True
-                elif re.search(r"trim\(res\.0↓Blocks\.0\.0, self\.0\)↓Err\.0", r):
-                    kind = "trimmed(claimed, issuer)"
-                    verdict = True
-                ctx.ob("R-FLOW", "%s:success-value:%s" % (own, kind), verdict,
-                       "%s returns Ok(%s) only where that is a subset of the issuer's blocks" % (own, kind),
-                       where=b.where(bi, si), detail=r)
+                # a value chosen by a combinator on the result of trim(claimed, issuer) is judged case by case: in the
+                # Ok case the claim is known covered, in the Err case it is not
+                cases = result_cases(f, v0)
+                if cases is None or not re.match(r"^(\w+::)*trim\(res\.0↓Blocks\.0\.0, self\.0\)$", render(cases[0][1])):
+                    cases = [(v0, None, None)]
+                for v, _, case in cases:
+                    r = render(v)
+                    rts = {render(x).split(".")[0] for x in roots(v) if x[0] in ("param", "var", "upvar")}
+                    verdict = False
+                    kind = "?"
+                    if re.search(r"::empty\(\)$", r) and not rts:
+                        kind = "empty"
+                        verdict = True
+                    elif rts == {"self"} and r == "self":
+                        kind = "issuer's own"
+                        inh = arm_of.get("Inherit")
+                        verdict = inh is not None and _edge_dominates(b, (choice_sw, inh), bi)
+                    elif rts == {"res"} and re.match(r"^res\.0↓Blocks\.0$", r):
+                        kind = "claimed blocks"
+                        verdict = case == "Ok" or (case is None and any(_edge_dominates(b, e, bi) for e in cover_edges))
+                    elif re.search(r"(intersection|intersection_assign)\(", r) and rts == {"res", "self"}:
+                        kind = "intersection(claimed, issuer)"
+                        verdict = True
+                    elif re.search(r"trim\(res\.0↓Blocks\.0\.0, self\.0\)↓Err\.0", r):
+                        kind = "trimmed(claimed, issuer)"
+                        verdict = True
+                    ctx.ob("R-FLOW", "%s:success-value:%s" % (own, kind), verdict,
+                           "%s returns Ok(%s) only where that is a subset of the issuer's blocks" % (own, kind),
+                           where=b.where(bi, si), detail=r)
         ctx.floor("R-FLOW", "%s success values" % own, n_ok, 4)
 
 
@@ -684,46 +741,190 @@ def check_encode_verify(ctx, f, rule="R-REG"):
                where=tb.loc, detail=None if ok else why(f, mp, SA + "::take_from_with_mode"))
 
 
+def _required_by_value(f, b, pos, depth=0):
+    """Member `pos` of the tuple in the success value of `b` (or of the crate function `b` ends in) is the `Some` payload
+    of an Option, and the `None` edge of every match on that Option fails.  -> (found, ok, detail)"""
+    vals = success_values(b)
+    if not vals:
+        return (False, False, "no success value in %s" % b.name)
+    res = None
+    for _, _, t in vals:
+        t = strip_deep(t)
+        if t[0] == "call" and (t[3] or {}).get("res") in f.bodies and depth < 3:
+            r = _required_by_value(f, f.body(t[3]["res"]), pos, depth + 1)
+        else:
+            r = (False, False, "success value of %s is not a tuple in Ok: %s" % (b.name, render(t)[:120]))
+            if t[0] == "agg" and t[2] == "Ok":
+                tup = strip_deep(dict(t[3]).get("0"))
+                if tup is not None and tup[0] == "agg" and tup[1] == "tuple" and len(tup[3]) > pos:
+                    payloads = [x for x in walk(strip_deep(tup[3][pos][1]))
+                                if x[0] == "field" and str(x[2]) == "0" and strip_deep(x[1])[0] == "variant" and strip_deep(x[1])[2] == "Some"]
+                    if len(payloads) == 1:
+                        opt = render(strip_deep(strip_deep(payloads[0][1])[1]))
+                        r = variant_edge_fails(b, "^%s$" % re.escape(opt), 0)
+                    else:
+                        r = (False, False, "member %d of the success tuple is not one Option's payload: %s" % (pos, render(tup[3][pos][1])[:120]))
+        if not (r[0] and r[1]):
+            return r
+        res = r
+    return res
+
+
+def _reach_within(f, root, prefix):
+    """Bodies under `prefix` that run as part of `root`: its closures and the crate functions it calls, transitively."""
+    seen, work = [], [root]
+    while work:
+        n = work.pop()
+        b = f.body(n)
+        if b is None or n in seen:
+            continue
+        seen.append(n)
+        for _, _, cdef, _ in b.closures_created():
+            work.append(cdef)
+        for c in b.calls():
+            if c.is_static and not b.is_cleanup(c.bb) and (c.res or "").startswith(prefix):
+                work.append(c.res)
+    return seen
+
+
+def option_slot_stores(b):
+    """[(block, slot term)]: the statements of `b` that put `Some(..)` into an `Option` living outside `b` — written
+    through a `&mut` parameter, a captured variable, or a field of either (`*slot = Some(v)`)."""
+    s = sym_of(b)
+    out = []
+    for bi, blk in enumerate(b.blocks):
+        if blk.get("cleanup"):
+            continue
+        for st in blk["stmts"]:
+            if st["s"] != "assign" or not any(p_[0] == "d" for p_ in st["pl"]["p"]):
+                continue
+            t = strip_deep(s.rvalue(st["rv"]))
+            if t[0] == "agg" and t[2] == "Some" and str(t[1]).endswith("option::Option"):
+                slot = strip_deep(s.place(st["pl"]))
+                if any(x[0] in ("param", "upvar") for x in roots(slot)):
+                    out.append((bi, slot))
+    return out
+
+
+def upvar_origin(f, cb, name, depth=0):
+    """The value a closure captured under `name`, as a term of the outermost enclosing function (captures of nested
+    closures are followed through their creators); None when it cannot be told."""
+    parent = None
+    for n, b in f.bodies.items():
+        for _, _, cdef, st in b.closures_created():
+            if cdef == cb.name:
+                parent = (b, st)
+    if parent is None or depth > 6:
+        return None
+    pb, st = parent
+    idx = None
+    for nm, pl in cb.rec.get("upvars", []):
+        if nm == name:
+            for pe in pl.get("p", []):
+                if pe and pe[0] == "f":
+                    try:
+                        idx = int(pe[1])
+                    except (TypeError, ValueError):
+                        idx = None
+                    break
+    ops = st["rv"]["ops"]
+    if idx is None or idx >= len(ops):
+        return None
+    t = strip_deep(sym_of(pb).operand(ops[idx]))
+    while t[0] == "mvar":
+        t = strip_deep(t[3])
+    if t[0] == "upvar":
+        return upvar_origin(f, pb, t[1], depth + 1)
+    return (pb, t)
+
+
 def check_signed_attrs_decoder(ctx, f):
     SA = "repository::sigobj::SignedAttrs::"
-    # each take_* helper refuses a duplicate
-    for helper, slot in (("take_content_type", "content_type"), ("take_message_digest", "message_digest"),
-                         ("take_signing_time", "signing_time")):
-        b = f.body(SA + helper)
-        if b is None:
-            ctx.missing("R-GRD", helper, SA + helper)
-            continue
-        ctx.saw_fn(SA + helper)
-        m = pred_matcher(r"Option::is_some$", (r"^%s$" % slot,), positive=False)
-        mp = MustPass(f, lambda c: False, guard_fn=lambda bd, s, bb, m=m: guard_edges(bd, s, bb, m), name="slot empty")
-        ok = mp.holds(SA + helper)
-        ctx.ob("R-GRD", "SignedAttrs::%s:no-duplicate" % helper, ok,
-               "%s fails when the attribute was already seen" % helper, where=b.loc,
-               detail=None if ok else why(f, mp, SA + helper))
-    b = f.body(SA + "take_from_with_mode")
+    TF = SA + "take_from_with_mode"
+    b = f.body(TF)
     if b is None:
-        return ctx.missing("R-GRD", "take_from_with_mode", SA + "take_from_with_mode")
-    ctx.saw_fn(SA + "take_from_with_mode")
-    for slot in ("message_digest", "content_type", "signing_time"):
+        return ctx.missing("R-GRD", "take_from_with_mode", TF)
+    ctx.saw_fn(TF)
+    # Each attribute slot refuses a duplicate.  The readers are found by what they do — a function or closure of the
+    # decoder that stores `Some(value)` into an Option slot owned by its caller — whether there is one reader per
+    # attribute or one generic reader, and whether the slots are locals, captures or fields of a collecting struct.
+    # Facts per (reader, slot): (1) the store lies behind the edge on which `slot.is_some()` is false, (2) the edge on
+    # which it is true cannot reach a success return, (3) a reader serving a single slot returns Ok only through (1).
+    n_slots = 0
+    reach = _reach_within(f, TF, "repository::sigobj::")
+    for n in reach:
+        rb = f.body(n)
+        stores = option_slot_stores(rb)
+        if not stores:
+            continue
+        ctx.saw_fn(n)
+        oc = outcome(rb)
+        by_slot = {}
+        for bi, slot in stores:
+            by_slot.setdefault(render(slot), []).append(bi)
+        for sl, blocks in sorted(by_slot.items()):
+            m = pred_matcher(r"Option::is_some$", (r"^%s$" % re.escape(sl),), positive=False)
+            empty_edges = []
+            occupied_ok = True
+            for bi in range(len(rb.blocks)):
+                if rb.blocks[bi]["term"]["t"] != "switch" or rb.is_cleanup(bi):
+                    continue
+                e = guard_edges(rb, oc.sym, bi, m)
+                if e:
+                    empty_edges += e
+                    fe = switch_bool_edges(rb, bi)
+                    other = fe[0] if e[0][1] == fe[1] else fe[1]
+                    occupied_ok = occupied_ok and other not in oc.success_reach()
+            behind = bool(empty_edges) and all(x not in rb.reachable(0, removed_edges=empty_edges) for x in blocks)
+            ok = behind and occupied_ok
+            detail = None
+            if ok and len(by_slot) == 1:
+                mp = MustPass(f, lambda c: False, guard_fn=lambda bd, s, bb, m=m: guard_edges(bd, s, bb, m), name="slot empty")
+                ok = mp.holds(n)
+                detail = None if ok else why(f, mp, n)
+            elif not ok:
+                detail = {"slot": sl, "store_behind_slot_empty_edge": behind, "occupied_edge_fails": occupied_ok}
+            # how many attribute slots this reader serves: its call sites in the decoder when the slot is a parameter
+            is_param = any(x[0] == "param" for x in roots(stores[0][1])) and not rb.rec.get("upvars")
+            sites = [c for rn in reach for c in f.body(rn).calls() if c.res == n and not f.body(rn).is_cleanup(c.bb)] if is_param else [None]
+            n_slots += max(1, len(sites))
+            helper = short(n).replace("SignedAttrs::", "")
+            ctx.ob("R-GRD", "SignedAttrs::%s:no-duplicate%s" % (helper, "" if len(by_slot) == 1 else "[%s]" % sl), ok,
+                   "%s fails when the attribute was already seen, and stores the value only into an empty slot" % short(n),
+                   where=rb.loc, detail=detail)
+    ctx.floor("R-GRD", "signed-attribute slots filled behind a duplicate test", n_slots, 3)
+    # Each attribute is required.  The decoder's success value is the tuple (attrs, digest, content type, time): the
+    # fact is about the values delivered at positions 1..3, wherever the function that builds the tuple lives (the
+    # decoder itself or a private function it ends in) and whatever holds the slots: each is the payload of an Option
+    # whose `None` edge cannot reach a success return.
+    for pos, slot in ((1, "message_digest"), (2, "content_type"), (3, "signing_time")):
         found, ok, detail = variant_edge_fails(b, r"^%s⟵" % slot, 0)
+        if not found:
+            found, ok, detail = _required_by_value(f, b, pos)
         ctx.ob("R-GRD", "SignedAttrs::take_from:%s-required" % slot, found and ok,
                "decoding fails when the %s attribute is missing" % slot, where=b.loc, detail=detail)
-    # unknown attributes: rejected when strict
-    inner = [bd for n, bd in f.bodies.items() if n.startswith(SA + "take_from_with_mode::{closure")]
+    # unknown attributes: rejected when strict.  `strict` is the decoder's second parameter; the closures see it as a
+    # capture (of a capture …) under whatever name it has.
+    inner = [f.body(n) for n in reach if n != TF and f.body(n).rec.get("upvars")]
+    strict_name = b.local_name(2)
     ok = False
     detail = "no switch on `strict` found"
     for bd in inner:
         oc = outcome(bd)
         for bi, blk in enumerate(bd.blocks):
             t = blk["term"]
-            if t["t"] != "switch" or t.get("dty") != "bool":
+            if t["t"] != "switch" or t.get("dty") != "bool" or blk.get("cleanup"):
                 continue
             term = strip(oc.sym.operand(t["discr"]))
             neg = False
             while term[0] == "un" and term[1] == "Not":
                 neg = not neg
                 term = strip(term[2])
-            if render(term) == "^strict":
+            term = strip_deep(term)
+            if term[0] != "upvar":
+                continue
+            org = upvar_origin(f, bd, term[1])
+            if org is not None and org[0] is b and org[1] == ("param", strict_name):
                 e = switch_bool_edges(bd, bi)
                 strict_true_t = e[0] if neg else e[1]
                 ok = strict_true_t not in oc.success_reach()
@@ -899,16 +1100,80 @@ def check_regions(ctx, rule, label, paths, it, rows, where, allow_opaque=False, 
 # ---------------------------------------------------------------------------
 # X.509 time pivots (C17.b, C05.b)
 
-def time_field_readers(f):
-    """The bodies (closures or functions) of repository::x509 that read the fixed-width fields of a Time value."""
-    out = []
-    for n, b in sorted(f.bodies.items()):
-        if not n.startswith("repository::x509::") or is_derived_body(b) or "::test" in n:
+def century_adds(b, consts=None):
+    """The additions `yy + 1900` / `yy + 2000` (either operand order, literal or named constant) in `b`, grouped by the
+    quantity yy they are applied to: {render(yy): [(block, century, yy term)]}."""
+    s = sym_of(b)
+    out = {}
+    for bi, blk in enumerate(b.blocks):
+        if blk.get("cleanup"):
             continue
-        two = [c for c in b.calls() if (c.res or "").endswith("x509::read_two_char") and not b.is_cleanup(c.bb)]
-        if len(two) >= 5:
-            out.append(b)
+        for st in blk["stmts"]:
+            if st["s"] != "assign" or st["rv"]["r"] != "bin" or st["rv"]["bop"] not in ("Add", "AddWithOverflow"):
+                continue
+            t = strip_deep(s.rvalue(st["rv"]))
+            if consts is not None:
+                t = fold_consts(t, consts)
+            x, y = strip_deep(t[2]), strip_deep(t[3])
+            if x[0] == "const" and x[1] in (1900, 2000) and not isinstance(x[1], bool):
+                x, y = y, x
+            if not (y[0] == "const" and y[1] in (1900, 2000) and not isinstance(y[1], bool)) or x[0] == "const":
+                continue
+            while x[0] == "cast":
+                x = strip_deep(x[1])
+            out.setdefault(render(x), []).append((bi, y[1], x))
     return out
+
+
+def _fills_two_octets(f, res, ga, depth=0):
+    """The crate function `res` (instantiated with generic arguments `ga`) fills a `[u8; 2]` buffer — itself, written out
+    or as the instance N = 2 of a reader generic over the width, or through a crate function it calls (thin wrappers)."""
+    cb = f.bodies.get(res)
+    if cb is None:
+        return False
+    tys = {l["ty"] for l in cb.locals}
+    if "[u8; 2]" in tys or (any(re.match(r"^\[u8; [A-Z]\w*\]$", ty) for ty in tys) and "2" in (ga or ())):
+        return True
+    if depth < 2:
+        for c in cb.calls():
+            if c.is_static and not cb.is_cleanup(c.bb) and c.res in f.bodies and c.res != res and \
+                    _fills_two_octets(f, c.res, c.ga, depth + 1):
+                return True
+    return False
+
+
+def _is_two_octet_field(f, t):
+    """`t` is the value of a fixed-width field of two octets: the result of a crate function that fills a `[u8; 2]` buffer
+    — whatever the reader is called."""
+    return any(x[0] == "call" and _fills_two_octets(f, (x[3] or {}).get("res"), (x[3] or {}).get("ga")) for x in walk(t))
+
+
+def year_pivot_table(b, leaf, adds, consts=None):
+    """{yy: [years]} for yy in 0..=99: which of the century additions on `leaf` is reached when the two-digit field has
+    the value yy.  Every branch whose condition is an expression of yy alone (`yy < 50`,
+    `50 <= yy`, the two range tests of a `0..=49` pattern, a switch on yy itself) is evaluated for that value and only the
+    edge it takes is followed; indifferent to the spelling of the pivot test and to which arm comes first."""
+    s = sym_of(b)
+    switches = []
+    for sb, blk in enumerate(b.blocks):
+        t = blk["term"]
+        if t["t"] == "switch" and not blk.get("cleanup"):
+            d = strip_deep(s.operand(t["discr"]))
+            switches.append((sb, t, fold_consts(d, consts) if consts is not None else d))
+    table = {}
+    for v in range(100):
+        env = {leaf: v}
+        dead = set()                    # the edges a decided branch does not take for this value
+        for sb, t, d in switches:
+            val = eval_term(d, env)
+            if val is None:
+                continue
+            edges = b.switch_edges(sb)
+            taken = [tb for ev, tb in edges if ev is not None and ev == val] or [t["otherwise"]]
+            dead.update((sb, tb) for _, tb in edges if tb not in taken)
+        reach = b.reachable(0, removed_edges=dead)
+        table[v] = sorted({century + v for bb, century, _ in adds if bb in reach})
+    return table
 
 
 def check_time_pivots(ctx, f):
@@ -932,47 +1197,24 @@ def check_time_pivots(ctx, f):
                 ("1950≤year≤2049", RC(y, 1950, 2049), utc, "UTCTime"),
                 ("year>2049", RC(y, 2050, None), gen, "GeneralizedTime"),
             ], eb.loc)
-    # decoder pivot in every copy of the UTCTime field reader (closures or named functions, wherever they live)
-    dec_closures = time_field_readers(f)
+    # decoder pivot in every copy of the UTCTime year reader, wherever it lives (closure, named helper) and whatever
+    # the digit reader is called: the bodies of x509 that add a century (1900 / 2000) to a two-digit quantity.  Decided
+    # per value: for every yy in 0..=99 exactly the addition giving 19yy (yy ≥ 50) resp. 20yy (yy < 50) is reached.
     npiv = 0
-    for b in dec_closures:
-        oc = outcome(b)
-        sym = oc.sym
-        defs = []
-        for bi, blk in enumerate(b.blocks):
-            if blk.get("cleanup"):
-                continue
-            for st in blk["stmts"]:
-                if st["s"] == "assign" and st["rv"]["r"] == "bin" and st["rv"]["bop"] in ("Add", "AddWithOverflow"):
-                    r = render(strip_deep(sym.rvalue(st["rv"])))
-                    if re.search(r"read_two_char\(", r) and re.search(r", (1900|2000)\)$", r):
-                        defs.append((bi, r))
-        piv = defs
-        if not piv:
+    consts = getattr(f, "consts", None)
+    for n, b in sorted(f.bodies.items()):
+        if not n.startswith(X) or is_derived_body(b) or "::test" in n:
             continue
-        npiv += 1
-        edges_true = set()
-        for bi, blk in enumerate(b.blocks):
-            if blk["term"]["t"] == "switch":
-                e = order_literal_edges(b, sym, bi, r"^50$", r"read_two_char\(")
-                if e:
-                    edges_true.update(e)
-        ok = bool(edges_true) and len(piv) == 2
-        detail = {"defs": piv, "pivot_edges": sorted(edges_true)}
-        for bb, r in piv:
-            dominated_by_true = bb not in b.reachable(0, removed_edges=edges_true)
-            if "1900" in r:
-                ok = ok and dominated_by_true
-            else:
-                # the 20yy arm is reachable only when the literal 50 <= yy is false
-                false_edges = set()
-                for (sw, tt) in edges_true:
-                    e = switch_bool_edges(b, sw)
-                    false_edges.add((sw, e[0] if tt == e[1] else e[1]))
-                ok = ok and bb not in b.reachable(0, removed_edges=false_edges)
-        ctx.ob("R-SIB", "%s:two-digit-year-pivot-50" % short(root_fn(f, b.name)) + ("" if "opt" not in b.name else ""), ok,
-               "%s maps yy ≥ 50 to 19yy and yy < 50 to 20yy (the encoder's UTCTime range 1950..=2049)" % short(root_fn(f, b.name)),
-               where=b.loc, detail=detail)
+        for leaf, adds in sorted(century_adds(b, consts).items()):
+            if not _is_two_octet_field(f, adds[0][2]):
+                continue                # (a century added to anything else — a parameter, a four-digit field — is no UTCTime reader)
+            npiv += 1
+            table = year_pivot_table(b, leaf, adds, consts)
+            wrong = {v: ys for v, ys in table.items() if ys != [(1900 if v >= 50 else 2000) + v]}
+            ctx.ob("R-SIB", "%s:two-digit-year-pivot-50" % short(root_fn(f, b.name)), not wrong,
+                   "%s maps yy ≥ 50 to 19yy and yy < 50 to 20yy (the encoder's UTCTime range 1950..=2049)" % short(root_fn(f, b.name)),
+                   where=b.loc, detail={"yy": leaf, "additions": [(bb, c) for bb, c, _ in adds],
+                                        "wrong_for": dict(sorted(wrong.items())[:6]) or None})
     ctx.floor("R-SIB", "UTCTime field readers with a year pivot", npiv, 1)
 
 
@@ -1164,14 +1406,9 @@ def eval_term(t, env):
     return None
 
 
-def check_serial_start(ctx, f, rule="R-REG"):
-    """Serial::start prepends a zero octet exactly when the first significant octet has its top bit set (so the INTEGER
-    stays non-negative and minimal): the branch condition is evaluated for all 256 octet values."""
-    fn = "repository::x509::Serial::start"
-    b = f.body(fn)
-    if b is None:
-        return ctx.missing(rule, "Serial::start", fn)
-    ctx.saw_fn(fn)
+def _pads_for_octets(b):
+    """(switch block, the first-octet values for which `b` steps back by one) for the branch of `b` whose condition is an
+    expression of one indexed octet, evaluated for all 256 values; None when `b` has no such branch."""
     s = sym_of(b)
     found = None
     for bi, blk in enumerate(b.blocks):
@@ -1179,6 +1416,8 @@ def check_serial_start(ctx, f, rule="R-REG"):
         if t["t"] != "switch" or blk.get("cleanup"):
             continue
         d = strip_deep(s.operand(t["discr"]))
+        if b.facts is not None:
+            d = fold_consts(d, b.facts.consts)         # `& 0x80` and `& SIGN_BIT` are the same test
         leaves = [x for x in walk(d) if x[0] == "index"]
         if not leaves:
             continue
@@ -1204,6 +1443,33 @@ def check_serial_start(ctx, f, rule="R-REG"):
             if sub_reach.get(edge, False):
                 pad.add(v)
         found = (bi, sorted(pad))
+    return found
+
+
+def check_serial_start(ctx, f, rule="R-REG"):
+    """Serial::start prepends a zero octet exactly when the first significant octet has its top bit set (so the INTEGER
+    stays non-negative and minimal): the branch condition is evaluated for all 256 octet values."""
+    fn = "repository::x509::Serial::start"
+    b = f.body(fn)
+    found = None
+    if b is None:
+        # The function is private, so its name is not part of the fact: it is the inherent method of Serial that maps
+        # the value to a `usize` position and decides on one indexed octet whether to step back by one.
+        cands = []
+        for n, r in sorted(f.fns.items()):
+            cb = f.body(n)
+            if r.get("impl_adt") != "repository::x509::Serial" or r.get("impl_trait") or cb is None or is_derived_body(cb) \
+                    or cb.arg_count != 1 or cb.ret_ty != "usize":
+                continue
+            fd = _pads_for_octets(cb)
+            if fd is not None:
+                cands.append((cb, fd))
+        if len(cands) != 1:
+            return ctx.missing(rule, "Serial::start", fn)
+        b, found = cands[0]
+    else:
+        found = _pads_for_octets(b)
+    ctx.saw_fn(b.name)
     ok = found is not None and found[1] == list(range(128, 256))
     ctx.ob(rule, "Serial::start:pad-iff-top-bit", ok,
            "Serial::start steps back one octet (emits a leading 0x00) exactly for first octets 0x80..=0xFF",
